@@ -32,6 +32,33 @@ def harnesses_for(prop, tier):
     return out
 
 
+def qualified_names():
+    """harness name -> fully qualified path inside the scratch crate (for --exact)"""
+    import re as _re
+    out = {}
+    for fn, prefix in (('kverif.rs', 'kverif'), ('kformat.rs', 'format::kformat')):
+        path = os.path.join(KANI_DIR, fn)
+        if not os.path.exists(path):
+            continue
+        mod = []
+        depth_mod = []
+        text = open(path).read()
+        cur_mod = None
+        for line in text.split('\n'):
+            m = _re.match(r'^mod (\w+) \{', line)
+            if m:
+                cur_mod = m.group(1)
+            if line.startswith('}') and cur_mod:
+                cur_mod = None
+            m = _re.match(r'\s*(?:pub )?fn (\w+)\(', line)
+            if m:
+                out.setdefault(m.group(1), prefix + ('::' + cur_mod if cur_mod else '') + '::' + m.group(1))
+            m = _re.match(r'\s*(?:token_harness|glue_harness|parse_harness)!\((\w+),', line)
+            if m:
+                out.setdefault(m.group(1), prefix + '::' + m.group(1))
+    return out
+
+
 def make_scratch(repo, workdir):
     crate = os.path.join(workdir, 'crate')
     if os.path.exists(crate):
@@ -122,8 +149,10 @@ def run(repo, harnesses, workdir, tier, seed, jobs=None, concrete=True):
     heavy = any(h.get('mem_heavy') for h in harnesses)
     jobs = jobs or (4 if heavy else 12)
     cmd = ['cargo', 'kani', '-Z', 'stubbing', '-Z', 'function-contracts', '--features', FEATURES, '--output-format', 'terse', '-j', str(jobs)]
+    qn = qualified_names()
+    cmd.append('--exact')
     for n in names:
-        cmd += ['--harness', n]
+        cmd += ['--harness', qn.get(n, n)]
     env = dict(os.environ, CARGO_NET_OFFLINE='true', CARGO_TARGET_DIR=TARGET_DIR)
     budget = max(300, int(sum(h.get('timeout_s', 120) for h in harnesses) / min(jobs, max(1, len(harnesses))) + max(h.get('timeout_s', 120) for h in harnesses)))
     log = os.path.join(workdir, 'kani.log')
@@ -162,7 +191,7 @@ def run(repo, harnesses, workdir, tier, seed, jobs=None, concrete=True):
 
 def concrete_playback(crate, name, env, workdir):
     cmd = ['cargo', 'kani', '-Z', 'stubbing', '-Z', 'function-contracts', '-Z', 'concrete-playback', '--concrete-playback=print',
-           '--features', FEATURES, '--harness', name]
+           '--features', FEATURES, '--exact', '--harness', qualified_names().get(name, name)]
     try:
         p = subprocess.run(cmd, cwd=crate, capture_output=True, text=True, env=env, timeout=1800)
     except subprocess.TimeoutExpired:
